@@ -11,7 +11,7 @@ EXTENDS Integers, Sequences, TLC, Json
 
 CONSTANT SnapshotBeforeRun
 
-Modes == {"workspace", "single"}
+Modes == {"workspace", "workspace_ppl", "single"}     \* workspace_ppl: the selected script has the .ppl extension
 Inputs == {"none", "text", "lineprotocol"}
 Outputs == {"json", "lineprotocol"}
 Kinds == {"noop", "addField", "toTag", "setMeas", "clearMeas", "setTime", "dropMsg", "useSibling", "loadErr", "runErr", "linkErr"}
@@ -32,7 +32,7 @@ Effect(k, p) == CASE k = "addField" -> [p EXCEPT !.added = TRUE]
                   [] OTHER -> p
 
 Init == /\ cfg \in [mode : Modes, input : Inputs, output : Outputs, kind : Kinds]
-        /\ (cfg.kind \in {"useSibling", "linkErr"} => cfg.mode = "workspace")      \* a sibling needs a workspace
+        /\ (cfg.kind \in {"useSibling", "linkErr"} => cfg.mode \in {"workspace", "workspace_ppl"})      \* a sibling needs a workspace
         /\ (cfg.kind = "clearMeas" => cfg.output = "json")                          \* line protocol cannot encode an empty name
         /\ phase = "start" /\ pt = None /\ snap = None /\ out = None /\ err = "none"
 
